@@ -41,6 +41,10 @@ pub struct Case {
     pub clients: Vec<Client>,
     pub seg: String,
     pub net_seed: u64,
+    /// the records' `id` field (never served, not required to be unique): 0 = 1, 2, 3, ...; 1 = all 7;
+    /// 2 = 1, 2, 1, 2, ...; 3 = descending; 4 = u64::MAX downwards
+    #[serde(default)]
+    pub id_style: u8,
 }
 
 fn hash32(seed: u64, salt: u64) -> String {
@@ -104,7 +108,7 @@ impl Scenario for Ribbit {
         "exploration"
     }
     fn rule(&self) -> &'static str {
-        "Per run: a generated build database of 1-6 records (product names command-safe, one database in twenty with a LONG one - 200 to 4000 bytes, among them lengths that put the TCP request line just below / at / above 1 KiB; version/build/keyring/cdn_path strings from the classes plain, digits, leading zeros, with '|', with '#', with spaces, with CR/LF, non-ASCII, 1 KiB long, look-alikes of the wire framing (MIME boundary, Checksum line, BPSV type marker, seqn line), non-numeric build, non-hex keyring; several builds per product with RFC 3339 timestamps in varying offsets and precisions incl. exact ties) is written to the sandbox and loaded by the REAL server state; databases the server rejects are vacuous. The real TCP accept loop + handle_connection run on the simulated listener and the real axum Router is driven in-process; 1-5 clients start concurrently at seeded virtual times: well-formed requests through the real RibbitClient (TCP v1 with MIME + checksum verification, TCP v2) and real TactClient (HTTP), and malformed ones (unknown product/version, wrong arity, empty line, 64 KiB line, non-UTF-8, never terminated, one byte per virtual second, connect-and-close) over raw simulated connections. Oracle: every row's typed fields equal the record with the chronologically newest build_time of that product; malformed requests end in an error reply or a closed connection within 10 virtual minutes (the server's own read time-out is 10 s; the bound is generous because that time-out is tuning, not part of the property); no task panics; after the last malformed client has started a fresh well-formed request is answered correctly within 3 virtual seconds (a server that serialises connections behind a stalled client takes its whole read time-out). Non-trivial = >= 2 clients; distinct = hash of (case, outcomes)."
+        "Per run: a generated build database of 1-6 records (record ids unique or - one database in five - repeating / descending / near u64::MAX; one database in ten with one build_time string for all records; product names command-safe, one database in twenty with a LONG one - 200 to 4000 bytes, among them lengths that put the TCP request line just below / at / above 1 KiB; version/build/keyring/cdn_path strings from the classes plain, digits, leading zeros, with '|', with '#', with spaces, with CR/LF, non-ASCII, 1 KiB long, look-alikes of the wire framing (MIME boundary, Checksum line, BPSV type marker, seqn line), non-numeric build, non-hex keyring; several builds per product with RFC 3339 timestamps in varying offsets and precisions incl. exact ties) is written to the sandbox and loaded by the REAL server state; databases the server rejects are vacuous. The real TCP accept loop + handle_connection run on the simulated listener and the real axum Router is driven in-process; 1-5 clients start concurrently at seeded virtual times: well-formed requests through the real RibbitClient (TCP v1 with MIME + checksum verification, TCP v2) and real TactClient (HTTP), and malformed ones (unknown product/version, wrong arity, empty line, 64 KiB line, non-UTF-8, never terminated, one byte per virtual second, connect-and-close) over raw simulated connections. Oracle: every row's typed fields equal the record with the chronologically newest build_time of that product; malformed requests end in an error reply or a closed connection within 10 virtual minutes (the server's own read time-out is 10 s; the bound is generous because that time-out is tuning, not part of the property); no task panics; after the last malformed client has started a fresh well-formed request is answered correctly within 3 virtual seconds (a server that serialises connections behind a stalled client takes its whole read time-out). Non-trivial = >= 2 clients; distinct = hash of (case, outcomes)."
     }
     fn assumptions(&self) -> Vec<&'static str> {
         vec![
@@ -242,7 +246,19 @@ impl Scenario for Ribbit {
                 clients.push(Client::Bad { kind, delay_ms });
             }
         }
-        Case { db, clients, seg: (*rng.pick(&["whole", "bytes1", "random", "blank", "tokens"])).to_string(), net_seed: rng.next_u64() }
+        let seg = (*rng.pick(&["whole", "bytes1", "random", "blank", "tokens"])).to_string();
+        let net_seed = rng.next_u64();
+        // drawn last: ids that repeat or run backwards (one database in five), and (one in ten) every record
+        // carrying the SAME build_time string - ties across products as well as within one
+        let id_style = if rng.chance(1, 5) { rng.range(1, 4) as u8 } else { 0 };
+        let mut db = db;
+        if rng.chance(1, 10) && !db.is_empty() {
+            let t = db[0].build_time.clone();
+            for r in db.iter_mut() {
+                r.build_time = t.clone();
+            }
+        }
+        Case { db, clients, seg, net_seed, id_style }
     }
 
     fn execute(&self, case: &Case, ctx: &mut Ctx) -> Option<Violation> {
@@ -335,7 +351,7 @@ async fn run(case: &Case, ctx: &mut Ctx) -> Option<Violation> {
             // hex columns are compared as bytes, so the case the operator used must not matter
             let up = |h: String| if r.hseed % 5 == 0 { h.to_uppercase() } else { h };
             json!({
-                "id": i as u64 + 1, "product": r.product, "version": r.version, "build": r.build,
+                "id": match case.id_style { 1 => 7, 2 => (i as u64 % 2) + 1, 3 => (case.db.len() - i) as u64, 4 => u64::MAX - i as u64, _ => i as u64 + 1 }, "product": r.product, "version": r.version, "build": r.build,
                 "build_config": up(hash32(r.hseed, 11)), "cdn_config": up(hash32(r.hseed, 12)), "keyring": r.keyring.clone().map(&up), "product_config": r.product_config.clone().map(&up),
                 "build_time": r.build_time, "encoding_ekey": hash32(r.hseed, 13), "root_ekey": hash32(r.hseed, 14),
                 "install_ekey": hash32(r.hseed, 15), "download_ekey": hash32(r.hseed, 16), "cdn_path": r.cdn_path
